@@ -19,9 +19,11 @@ SPEC = os.path.join(VERIF, "spec")
 EVID = os.path.join(VERIF, "evidence")
 HARNESS_SRC = os.path.join(VERIF, "harness")
 # with VERIF_REPO pointing at another checkout, the harness is built from a copy whose path dependency points there
-HARNESS = HARNESS_SRC if REPO == "/repo" else os.path.join(WORK, "harness-copy")
+HARNESS = HARNESS_SRC if REPO == "/repo" else os.path.join(WORK, "harness-copy-" + __import__("hashlib").md5(REPO.encode()).hexdigest()[:8])
 GUARD = "datatrash_mos_verif"
-MOS_TARGET = os.path.join(WORK, "target-mos")
+# one target directory per source tree: cargo does not re-link the uplifted binary when it switches back to a tree whose
+# units are still fresh, so a shared directory could hand out the binary of the tree built before
+MOS_TARGET = os.path.join(WORK, "target-mos" if REPO == "/repo" else "target-mos-" + __import__("hashlib").md5(REPO.encode()).hexdigest()[:8])
 MOS_BIN = os.path.join(MOS_TARGET, "debug", "mos")
 
 EXIT_OK, EXIT_VIOLATION, EXIT_TOOL = 0, 1, 2
